@@ -1,0 +1,44 @@
+//go:build verif
+
+/*
+SPDX-License-Identifier: Apache-2.0
+*/
+
+package wallet
+
+import (
+	"time"
+
+	"github.com/bluele/gcache"
+)
+
+// VerifSessionManager is a wallet session manager of its own (not the process-wide singleton), so that a
+// verification harness can drive createSession/closeSession/getSession from many goroutines.
+type VerifSessionManager struct {
+	m *walletSessionManager
+}
+
+// NewVerifSessionManager returns a fresh session manager.
+func NewVerifSessionManager() *VerifSessionManager {
+	return &VerifSessionManager{m: &walletSessionManager{gstore: gcache.New(0).Build()}}
+}
+
+// Create calls createSession (no key manager).
+func (v *VerifSessionManager) Create(user string, expiry time.Duration) (string, error) {
+	return v.m.createSession(user, nil, expiry)
+}
+
+// Close calls closeSession.
+func (v *VerifSessionManager) Close(user string) bool {
+	return v.m.closeSession(user)
+}
+
+// User calls getSession and returns the session's user.
+func (v *VerifSessionManager) User(token string) (string, error) {
+	s, err := v.m.getSession(token)
+	if err != nil {
+		return "", err
+	}
+
+	return s.user, nil
+}
